@@ -69,8 +69,7 @@ def run(tier):
     try:
         with common.Lock():
             common.stage_harness()
-            import gen04
-            gen04.emit_all()
+            common.emit_all_gen()
             ok_inst, ok_props, _, logs = common.coq_stage(rp, ["theories/Proofs/LexerP.vo", "theories/Proofs/LoopsP.vo", "theories/Proofs/CursorP.vo"],
                                                          "theories/Props/C01.v", theorems)
     except common.StageError as e:
